@@ -300,8 +300,10 @@ func (node *Node) ProcessBlock(ctx context.Context, block wire.Block) error {
 				// Only send for txs that previously matched filters.
 
 				// Mark cancelled
+				node.txStateLock.Lock()
 				txState, err := handlersstorage.FetchTxState(ctx, node.store, confHash)
 				if err != nil {
+					node.txStateLock.Unlock()
 					node.txs.ReleaseUnconfirmed(ctx)
 					return errors.Wrap(err, "fetch tx state")
 				}
@@ -311,6 +313,7 @@ func (node *Node) ProcessBlock(ctx context.Context, block wire.Block) error {
 				txState.State.Cancelled = true
 
 				if err := handlersstorage.SaveTxState(ctx, node.store, txState); err != nil {
+					node.txStateLock.Unlock()
 					node.txs.ReleaseUnconfirmed(ctx)
 					return errors.Wrap(err, "save tx state")
 				}
@@ -323,6 +326,7 @@ func (node *Node) ProcessBlock(ctx context.Context, block wire.Block) error {
 				for _, handler := range node.handlers {
 					handler.HandleTxUpdate(ctx, update)
 				}
+				node.txStateLock.Unlock()
 			}
 		}
 
@@ -399,8 +403,10 @@ func (node *Node) ProcessBlock(ctx context.Context, block wire.Block) error {
 			}
 
 		} else {
+			node.txStateLock.Lock()
 			txState, err := handlersstorage.FetchTxState(ctx, node.store, *tx.TxHash())
 			if err != nil {
+				node.txStateLock.Unlock()
 				node.txs.ReleaseUnconfirmed(ctx)
 				return errors.Wrap(err, "fetch tx state")
 			}
@@ -416,6 +422,7 @@ func (node *Node) ProcessBlock(ctx context.Context, block wire.Block) error {
 			}
 
 			if err := handlersstorage.SaveTxState(ctx, node.store, txState); err != nil {
+				node.txStateLock.Unlock()
 				node.txs.ReleaseUnconfirmed(ctx)
 				return errors.Wrap(err, "save tx state")
 			}
@@ -428,6 +435,7 @@ func (node *Node) ProcessBlock(ctx context.Context, block wire.Block) error {
 			for _, handler := range node.handlers {
 				handler.HandleTxUpdate(ctx, update)
 			}
+			node.txStateLock.Unlock()
 
 		}
 	}
